@@ -15,7 +15,7 @@ from vlib import log
 
 LEVEL_MC = "model_checking"
 # spec-flagged findings and the properties they are violations of
-KF_OWNER = {"v1-id-reuse": ("C07", "C15"), "v1-track-id-reuse": ("C15",), "v1-bpm-from-grid": ("C01",)}
+KF_OWNER = {"v1-id-reuse": ("C07", "C15"), "v1-track-id-reuse": ("C15",), "v1-bpm-from-grid": ("C01",), "v2-setter-not-atomic": ("C14",)}
 MAX_REPORTED = 5   # rejections confirmed and reported per run (the rest is only counted)
 
 
@@ -24,7 +24,7 @@ MAX_REPORTED = 5   # rejections confirmed and reported per run (the rest is only
 # --------------------------------------------------------------------------------------------
 def measure_traces(shards):
     """Counts, from the recorded traces themselves, what was exercised."""
-    calls = faulted = throws = reopens = 0
+    calls = faulted = throws = reopens = crashes = crash_commits = 0
     distinct = set()
     fault_sites = set()
     for sh in shards:
@@ -33,19 +33,26 @@ def measure_traces(shards):
             e = r.get("e")
             if e == "reopen":
                 reopens += 1
+            if e == "crash":
+                crashes += 1
+            if e == "call" and "crash" in r:
+                crash_commits += 1
             if e != "call":
                 continue
             calls += 1
             if r.get("out") == "throw":
                 throws += 1
             f = r.get("fault")
-            sig = (schema, r.get("op"), r.get("c"), r.get("p"), r.get("n"), r.get("t"), r.get("after"), r.get("out"))
+            sig = (schema, r.get("op"), r.get("c"), r.get("p"), r.get("n"), r.get("t"), r.get("after"), r.get("out"),
+                   r.get("col"), r.get("id"), r.get("f"), r.get("list"), r.get("title"), r.get("parent"), r.get("next"), r.get("variant"))
+            sig = tuple(x if isinstance(x, (int, str, bool, type(None))) else json.dumps(x, sort_keys=True)[:80] for x in sig)
             if f and f.get("fired"):
                 faulted += 1
                 fault_sites.add((schema, r.get("op"), f.get("k"), r.get("ns")))
             else:
                 distinct.add(sig)
-    return {"calls": calls, "throws": throws, "faulted_attempts": faulted, "reopens": reopens,
+    return {"calls": calls, "throws": throws, "faulted_attempts": faulted, "reopens": reopens, "crash_points_without_effect": crashes,
+            "calls_committed_by_a_dying_process": crash_commits,
             "distinct_calls": len(distinct), "distinct_fault_sites": len(fault_sites)}
 
 
@@ -439,10 +446,36 @@ def check_C16(tier, seed):
         return ws
 
     import trackchecks as _tc
+    import tablecheck as _tb
+    import auxcheck as _ax
+    import blobsetcheck as _bs
+    plt = {}
+
+    def build_pl(wd, mc_stats):
+        ws, tcfg, stats, n, consts = _tb.build_pltable(wd, mc_stats, "quick", seed)
+        if tier == "quick":
+            r = random.Random(seed)
+            for w in ws:
+                w.scripts = r.sample(w.scripts, min(300, len(w.scripts)))
+        plt["cfg"] = tcfg
+        return ws
+
+    # (the playlist-table trace cfg only depends on constants that are fixed here)
+    pl_cfg = vlib.cfg_text("TSpec", {"ValidNames": {"a", "b"}, "InvalidNames": {"", "x;y"}, "Variant": "current", "MaxP": 3, "MaxE": 3,
+                                     "Tracks": {1, 2}, "MaxOps": 0, "OpNames": {"a", "b", ""}}, postcondition="Accepted")
     return history_check(
         "C16", tier, seed, build,
-        also=[{"driver": "trackdriver", "build": build_tracks, "module": "TraceTrackFields", "cfg": _tc.track_cfg()}],
-        rule="track level: histories of create / set / remove over three tracks with all 25 getters, the per-slot getters and snapshot() "
+        also=[{"driver": "trackdriver", "build": build_tracks, "module": "TraceTrackFields", "cfg": _tc.track_cfg()},
+              {"driver": "trackdriver", "build": lambda wd, ms: _bs.build_foreign_obs(wd, ms, tier, seed), "module": "TraceTrackBlobs", "cfg": _bs.blob_cfg()},
+              {"driver": "tabledriver", "build": lambda wd, ms: _tb.build_table16(wd, ms, tier, seed), "module": "TraceTableApi", "cfg": _tb.table_cfg()},
+              {"driver": "pltabledriver", "build": build_pl, "module": "TraceV2Table", "cfg": pl_cfg},
+              {"driver": "auxdriver", "build": lambda wd, ms: _ax.build_aux(wd, ms, tier, seed), "module": "TraceChangeLog", "cfg": _ax.aux_cfg()}],
+        rule="tracks holding foreign blobs (2.x; entry counts other than eight, flag bytes, trailing bytes planted behind the library's "
+             "back): all getters and snapshot() twice after every planted blob, same NoWrite rule and the planted payload must still be "
+             "there (TraceTrackBlobs); table level (schema-2.x table API): the read functions of track_table (get, exists, all_ids, the 48 per-column getters), "
+             "playlist_table / playlist_entity_table (all_ids, root_ids, child_ids, descendant_ids, get, exists, find_id, track_ids, "
+             "get_for_list), change_log_table (all, after, last) and information_table (get) are executed twice after every operation "
+             "of the table-level scripts under the same NoWrite rule; track level: histories of create / set / remove over three tracks with all 25 getters, the per-slot getters and snapshot() "
              "of every live track AND of every handle to a removed track executed twice after every call (same NoWrite rule); crate level: "
              "after every call of every replayed history the complete observation batch (every getter, listing and "
              "lookup of database / crate / track handles; on disk also database_exists() and load_database()) is "
@@ -529,9 +562,15 @@ def check_C11(tier, seed):
             r = random.Random(seed * 31 + vlib.ALL.index(s))
             n1, n2 = (250, 250) if tier == "quick" else (len(sc), len(sc2))
             ws.append(Workload(s, sc if len(sc) <= n1 else r.sample(sc, n1), libcheck.NAMES4, flags={"raw": True}, origin=st["instance"],
-                               also=vlib.v2store_also(s)))
+                               also=vlib.store_also(s)))
             ws.append(Workload(s, sc2 if len(sc2) <= n2 else r.sample(sc2, n2), ["a", "d"], flags={"raw": True}, origin=st2["instance"],
-                               also=vlib.v2store_also(s)))
+                               also=vlib.store_also(s)))
+        # the 1.x storage-layer model itself: the three redundant encodings agree after every call, refinement into
+        # Library, atomicity under Fail(k) (the 2.x model is checked by C09's run)
+        import mcv2store
+        stats, sens, problems = mcv2store.model_check_v1(wd, tier, mc_stats, variants=(tier != "quick"))
+        if problems:
+            raise vlib.ToolFailure("; ".join(problems))
         return ws
 
     return history_check(
@@ -560,25 +599,63 @@ def check_C14(tier, seed):
                                            mem_bounds=(3, 5, 13) if tier == "quick" else (3, 6, 14))
             r = random.Random(seed * 131 + vlib.ALL.index(s))
             n1, n2 = (150, 150) if tier == "quick" else (len(sc), len(sc2))
-            v2 = vlib.family(s) == "v2"
-            fl = {"sweep": True, "raw": True} if v2 else {"sweep": True}
+            fl = {"sweep": True, "raw": True, "stmts": True}
             ws.append(Workload(s, sc if len(sc) <= n1 else r.sample(sc, n1), libcheck.NAMES4, flags=fl, origin=st["instance"],
-                               also=vlib.v2store_also(s)))
+                               also=vlib.store_also(s) + vlib.txn_also()))
             ws.append(Workload(s, sc2 if len(sc2) <= n2 else r.sample(sc2, n2), ["a", "d"], flags=dict(fl), origin=st2["instance"],
-                               also=vlib.v2store_also(s)))
+                               also=vlib.store_also(s) + vlib.txn_also()))
+            # crash points: the same histories on disk; every call is first attempted in a process that dies right before
+            # its k-th statement (k = 1, 2, ...), the library is loaded again and observed (TraceLibrary: "crash" records)
+            c1, c2 = (40, 25) if tier == "quick" else (300, 200)
+            cf = {"crash": True, "raw": True}
+            ws.append(Workload(s, sc if len(sc) <= c1 else r.sample(sc, c1), libcheck.NAMES4, mode="disk", flags=cf, tag="k", origin=st["instance"]))
+            ws.append(Workload(s, sc2 if len(sc2) <= c2 else r.sample(sc2, c2), ["a", "d"], mode="disk", flags=dict(cf), tag="k", origin=st2["instance"]))
         return ws
 
+    def build_tracks(wd, mc_stats):
+        # the same sweep over track-level calls: create_track, update, every field setter, remove_track
+        import trackchecks
+        res, bases, seqs = trackchecks.run_mc_track(wd, 1)
+        mc_stats.append({"instance": res["instance"], "states": res["states"], "transitions": res["generated"]})
+        mk = trackchecks.mk
+        by_field = {}
+        for sq in seqs:
+            if len(sq) == 1:
+                by_field.setdefault(sq[0]["f"], []).append(sq[0]["v"])
+        r = random.Random(seed * 23)
+        scripts = []
+        per_field = 2 if tier == "quick" else 6
+        for base in ("full", "min"):
+            ops = [mk("create", snap=bases[base]), mk("create", snap=dict(bases["sentinels"], relative_path=["other/t2.flac"]))]
+            for f in sorted(by_field):
+                for v in r.sample(by_field[f], min(per_field, len(by_field[f]))):
+                    ops.append(mk("set", t=1, f=f, v=v))
+            ops += [mk("update", t=1, snap=bases["edge"]), mk("update", t=2, snap=bases["full"]), mk("remove", t=1), mk("remove", t=2)]
+            scripts.append(ops)
+        ws = []
+        for s in (vlib.REPR if tier == "quick" else vlib.ALL):
+            ws.append(Workload(s, scripts, [], flags={"sweep": True, "stmts": True}, tag="t", origin=res["instance"], also=vlib.txn_also()))
+        return ws
+
+    import trackchecks as _tc
     return history_check(
         "C14", tier, seed, build,
+        also=[{"driver": "trackdriver", "build": build_tracks, "module": "TraceTrackFields", "cfg": _tc.track_cfg()}],
         rule="fault sweep: every call of every replayed history is first attempted with its 1st, 2nd, ... k-th SQL "
              "statement failing (link-level shim returns SQLITE_IOERR from the first sqlite3_step of the k-th prepared "
              "statement without executing it; reads, writes, BEGIN and COMMIT alike) until the fault no longer fires; TLC "
              "(action Failed = Reject) requires every faulted attempt to throw a std::exception, the complete observation to "
-             "be unchanged and the digest of all tables to be identical; the following calls must conform (library usable)",
+             "be unchanged and the digest of all tables to be identical; the following calls must conform (library usable); "
+             "crash points (library on disk): every call is additionally attempted in a forked process that opens the library "
+             "itself and dies (_exit, no destructor, no ROLLBACK) right before stepping its k-th statement, k = 1, 2, ...; the "
+             "library is loaded again: while the stored tables are byte-identical the observation must be unchanged ('crash' "
+             "record = Reopen), and once they differ the attempt is validated as the call itself - its effect must be the complete "
+             "effect of the call, never a part of it",
         level="fault_enumeration",
         assumptions=["a failing statement has no effect of its own (SQLite statement atomicity), which is what the shim simulates",
                      "ROLLBACK, the recovery action itself, is never failed",
-                     "track field setters are swept by the C06-level track driver (see known findings)"])
+                     "track-level calls (create_track, update, all field setters, remove_track) are swept by the track driver in "
+                     "the same run and judged by TraceTrackFields (a faulted attempt must throw and change no field of any track)"])
 
 
 from purechecks import check_C19, check_C20, check_C13  # noqa: E402,F401
@@ -589,3 +666,4 @@ from trackchecks import check_C01, check_C06  # noqa: E402,F401
 from decodercheck import check_C05  # noqa: E402,F401
 from tablecheck import check_C18  # noqa: E402,F401
 from ubcheck import check_C15  # noqa: E402,F401
+from schemaref import check_C12  # noqa: E402,F401
